@@ -141,7 +141,7 @@ fn name_strategy() -> BoxedStrategy<String> {
         4 => "[A-Za-z0-9_.]{1,10}",
         2 => "chrUn_[A-Z]{2}[0-9]{3}v1",
         // names sharing a prefix with words some tools treat specially in the first column
-        1 => proptest::sample::select(vec!["track7", "browser1", "trackhub", "browserX", "variableStep1", "fixedStep_2", "chrom", "chr", "NaN", "nan", "inf", "e5", "0", "1e3", "0x10", "-", "+"]).prop_map(|s| s.to_string()),
+        1 => proptest::sample::select(vec!["track7", "browser1", "trackhub", "browserX", "variableStep1", "fixedStep_2", "chrom", "chr", "NaN", "nan", "inf", "e5", "0", "1e3", "0x10", "-", "+", "chr1:100-200", "a:1-2", "HLA-A*01:01", "chr2:5", "x-y", "1:0-0"]).prop_map(|s| s.to_string()),
     ]
     .boxed()
 }
